@@ -164,8 +164,23 @@ func narrowPins(s *hx.Schema) map[string]bool {
 // extend blocks, pieces distributed over 1-4 successive documents such that every interim schema is
 // well-formed (references, extension targets, interface bundles and literal members available).
 func Arrange(t *rapid.T, s *hx.Schema, o hx.SDLOpts, label string, allowExtend bool, maxDocs int) *Arrangement {
+	return arrange(t, s, o, label, allowExtend, maxDocs, false)
+}
+
+// ArrangeLoose puts everything into ONE document and moves members into extend blocks without
+// keeping together what an interim schema would need together: an implements clause may sit in one
+// extend block and the fields it requires in another, later or earlier one, a narrowed field before
+// the membership it relies on. Within one load only the merged result has to be valid.
+func ArrangeLoose(t *rapid.T, s *hx.Schema, o hx.SDLOpts, label string) *Arrangement {
+	return arrange(t, s, o, label, true, 1, true)
+}
+
+func arrange(t *rapid.T, s *hx.Schema, o hx.SDLOpts, label string, allowExtend bool, maxDocs int, loose bool) *Arrangement {
 	syms, keys := literalPins(s)
 	npins := narrowPins(s)
+	if loose {
+		npins = map[string]bool{}
+	}
 	var pieces []Piece
 	mk := func(text, defines, extends string, n needSet) {
 		if extends != "" {
@@ -247,7 +262,7 @@ func Arrange(t *rapid.T, s *hx.Schema, o hx.SDLOpts, label string, allowExtend b
 				} else {
 					exts[w-1].Interfaces = append(exts[w-1].Interfaces, in)
 				}
-				if it := s.Type(in); it != nil {
+				if it := s.Type(in); it != nil && !loose {
 					for _, f := range it.Fields {
 						if cur, has := ifaceOf[f.Name]; !has || w < cur {
 							ifaceOf[f.Name] = w // a field required by two interfaces goes where the earlier one is
@@ -308,6 +323,9 @@ func Arrange(t *rapid.T, s *hx.Schema, o hx.SDLOpts, label string, allowExtend b
 			check(&base, nil)
 			for _, e := range exts {
 				check(e, base.Fields)
+			}
+			if loose {
+				ok = true
 			}
 			if !ok {
 				base.Fields, base.Interfaces = td.Fields, td.Interfaces
